@@ -350,6 +350,9 @@ func (c *fc) genCall(site ssa.CallInstruction) {
 		callees = []*ssa.Function{sc}
 	}
 	for _, callee := range callees {
+		if a.cfg.SkipEdge != nil && a.cfg.SkipEdge(site, callee) {
+			continue
+		}
 		c.bindCall(site, callee, args)
 	}
 	if cc.IsInvoke() && a.cfg.ExtInvoke != nil {
